@@ -411,7 +411,10 @@ pub fn render_enum(spec: &EnumSpec, derives: &[&str]) -> String {
     let mut o = String::new();
     o.push_str(&format!("#[derive({})]\n", derives.join(", ")));
     if let Some(r) = &spec.repr {
-        o.push_str(&format!("#[repr({})]\n", r));
+        // "u8;align(4)" renders two separate #[repr] attributes
+        for part in r.split(';') {
+            o.push_str(&format!("#[repr({})]\n", part.trim()));
+        }
     }
     o.push_str(&layout_attrs(spec.strum_items(), Layout::Single, ""));
     for a in &spec.extra_attrs {
